@@ -345,10 +345,10 @@ func execInto(t *testing.T, plan *Plan, orc Oracle, dst **World) {
 		*dst = w
 		w.FS = NewSimFS(time.Duration(plan.GranNs))
 		time.Local = loadTZ(plan.TZ)
+		defer logging.Initialize(logging.LevelNone, io.Discard, io.Discard)
 		if plan.Meta["debuglog"] != "" {
 			// -d: every log statement formats its arguments (into a discarding writer)
 			logging.Initialize(logging.LevelDebug, io.Discard, io.Discard)
-			defer logging.Initialize(logging.LevelNone, io.Discard, io.Discard)
 		}
 		start := time.Now()
 		if plan.Clock0 > 0 {
@@ -411,6 +411,16 @@ func (w *World) applyActor(op *Op) {
 	switch op.K {
 	case "clock":
 		time.Sleep(time.Duration(op.N) * time.Second)
+	case "loglevel":
+		// the following runs are started with -d, with -v or with neither
+		lv := logging.LevelNone
+		switch op.Arg {
+		case "debug":
+			lv = logging.LevelDebug
+		case "info":
+			lv = logging.LevelInfo
+		}
+		logging.Initialize(lv, io.Discard, io.Discard)
 	case "tz":
 		time.Local = loadTZ(op.Arg) // the machine's zone changes between runs
 	case "shift-mtimes":
